@@ -231,9 +231,10 @@ CHECKS['C04'] = dict(
          "the hard part and no other one is lexicographically better by priority on the stated quantities); the compile model (weak constraints: body, "
          "sign, weight, level, tuple - from the generated PRIORITY_LEVEL / direction tables) and gringo/clasp's semantics of the emitted weak "
          "constraints (sets of (weight, tuple) per level, lexicographic by level). Theorems: C04_levels_ordered, C04_direction_signs, "
-         "C04_as_much_as_possible_refuted (known finding) over the regenerated tables; C04_cost_is_quantity_partial and C04_optimal_partial: for the "
-         "forms without an aggregate, any rooms/shelves/candidate space and any number of preferences with pairwise distinct priorities, optimality "
-         "by the emitted weak constraints IS optimality by the reading (the two aggregate forms are covered by the oracle only: partial). Tie: the model prints the implementation's weak constraints modulo "
+         "C04_as_much_as_possible_refuted (known finding) over the regenerated tables; C04_cost_is_quantity and C04_optimal: for EVERY preference "
+         "form, any rooms/shelves/candidate space and any number of preferences with pairwise distinct priorities, the cost each emitted weak "
+         "constraint contributes is the stated quantity with the stated direction, and optimality by the emitted weak constraints (gringo/clasp "
+         "semantics) IS optimality by the reading; 'as much as possible' is excluded by hypothesis (known finding). Tie: the model prints the implementation's weak constraints modulo "
          "renaming of variables; oracle: clingo --opt-mode=optN (optimality proven) on the IMPLEMENTATION's program versus the reading and versus the "
          "model's weak-constraint semantics, exhaustively over all 2^(n*m) interpretations.",
     note="Trusted: Coq kernel; clingo/clasp as external semantics; renaming preserves meaning; the reading (Cnl/Preference.v: optimal_in, quantity) is the "
